@@ -6,7 +6,7 @@ def nontrivial(c):
             has_span = True
         elif l.startswith("op adv ") and not l.endswith(" 0"):
             has_adv = True
-        elif l.startswith("obs at=") and " sent=-" not in l:
+        elif l.startswith("obs at=") and " sent=-" not in l:  # tick or looptick
             decided = True
     return has_span and has_adv and decided
 
@@ -23,6 +23,7 @@ SPEC = dict(
          "(TraceTimeout/SendDelay/SpanLimit/MaxExpiredTraces incl. 0 = fall-back/unlimited, all-zero config, "
          "SpanLimit >= 2^32, MaxExpiredTraces = 2^63); ~65% of the advances land exactly on, 1 ns before or 1 ns after "
          "a pending documented deadline; 25% of the cases build a backlog of 6-19 traces against a small MaxExpiredTraces; "
+         "~5% of the ops are loop-driven ticks (the real collect() loop of a released worker takes the tick from its own ticker after an idle clock advance during which a deadline usually falls); "
          "non-trivial = a trace was buffered, the clock moved and some tick decided >= 1 trace; distinct by transcript hash",
     trusted_base=["clockwork.FakeClock", "the repository's mocks (config.MockConfig, MockStressReliever, MockSharder, MockPeers, metrics.MockMetrics)",
                   "deterministic sampler with rate 1 (every trace kept, so every decision is visible at the transmission)",
